@@ -399,7 +399,7 @@ def main(argv=None):
     for name, s in sorted(oracle_stats.items()):
         print("  oracle %-42s n=%-6d max_observed=%.3e tol=%s" % (name, s["n"], s["max_observed"], s["tolerance"]))
     # keep log dirs only when something went wrong
-    if exit_code == 0:
+    if exit_code == 0 and not os.environ.get('VERIF_KEEP_LOGS'):
         import shutil
         shutil.rmtree(logdir, ignore_errors=True)
     else:
